@@ -257,40 +257,52 @@ structure LoopState (K : Type) (n p m : Nat) where
   info : Info K
   kkt : KKT K n p m
 
+/-- the termination test of the loop head on the diagnostics in `info` -/
+def termTest (st : Settings K) (info : Info K) : Bool :=
+  decide (info.primalInf < st.epsAbs + st.epsRel * info.primalRelInf) &&
+  decide (info.dualInf < st.epsAbs + st.epsRel * info.dualRelInf) &&
+  (!st.checkDualityGap || decide (info.dualityGap < st.epsGapAbs + st.epsGapRel * info.dualityGapRel))
+
+/-- loop head, first part: (re)compute residuals at iteration 0 and the infeasibility norms -/
+def headInfo (e : Env K n p m) (iter0 : Bool) (w : Work K n p m) (info : Info K) : Work K n p m × Info K :=
+  let (w0, info0) := if iter0 then updateNrResiduals e w info else (w, info)
+  (w0, { info0 with primalInf := primalInfNr e w0, dualInf := dualInfNr e w0 })
+
+/-- regularised residuals `rx … rz_ub` -/
+def regResiduals (e : Env K n p m) (w0 : Work K n p m) (info1 : Info K) : Work K n p m :=
+  let d := e.data
+  let rho := info1.rho
+  let delta := info1.delta
+  let rx : Vec K n := Vector.ofFn fun i => w0.rx_nr[i] - rho * (w0.x[i] - w0.zeta[i])
+  let ry : Vec K p := Vector.ofFn fun i => w0.ry_nr[i] - delta * (w0.lambda[i] - w0.y[i])
+  let rz : Vec K m := Vector.ofFn fun i => w0.rz_nr[i] - delta * (w0.nu[i] - w0.z[i])
+  let rzl := d.lb.headUpd w0.r.z_lb fun i => w0.rz_lb_nr[i] - delta * (w0.nu_lb[i] - w0.z_lb[i])
+  let rzu := d.ub.headUpd w0.r.z_ub fun i => w0.rz_ub_nr[i] - delta * (w0.nu_ub[i] - w0.z_ub[i])
+  { w0 with r := { w0.r with x := rx, y := ry, z := rz, z_lb := rzl, z_ub := rzu } }
+
+/-- the two infeasibility rules -/
+def primalInfeasRule (e : Env K n p m) (w1 : Work K n p m) (info1 : Info K) : Bool :=
+  decide ((min (5 : Int) e.st.regFinetuneDualThr) < (info1.noDualUpdate : Int)) &&
+  decide (e.cs.c1e12 < primalProxInf e w1) &&
+  decide (primalInfR e w1 < e.st.epsAbs + e.st.epsRel * info1.primalRelInf)
+
+def dualInfeasRule (e : Env K n p m) (w1 : Work K n p m) (info1 : Info K) : Bool :=
+  decide ((min (5 : Int) e.st.regFinetunePrimalThr) < (info1.noPrimalUpdate : Int)) &&
+  decide (e.cs.c1e12 < dualProxInf e w1) &&
+  decide (dualInfR e w1 < e.st.epsAbs + e.st.epsRel * info1.dualRelInf)
+
 /-- phase A: loop head up to the infeasibility tests.  `none` = continue with the body.
     (`iter0` : the residuals are recomputed when `iter = 0`.) -/
 def phaseA (e : Env K n p m) (iter0 : Bool) (w : Work K n p m) (info : Info K) :
     Work K n p m × Info K × Option Status :=
-  let st := e.st
-  let d := e.data
-  let (w0, info0) := if iter0 then updateNrResiduals e w info else (w, info)
-  let pinf := primalInfNr e w0
-  let dinf := dualInfNr e w0
-  let info1 := { info0 with primalInf := pinf, dualInf := dinf }
-  if decide (pinf < st.epsAbs + st.epsRel * info1.primalRelInf) &&
-     decide (dinf < st.epsAbs + st.epsRel * info1.dualRelInf) &&
-     (!st.checkDualityGap || decide (info1.dualityGap < st.epsGapAbs + st.epsGapRel * info1.dualityGapRel)) then
-    (w0, { info1 with status := .solved }, some .solved)
+  let hi := headInfo e iter0 w info
+  if termTest e.st hi.2 then
+    (hi.1, { hi.2 with status := .solved }, some .solved)
   else
-    let rho := info1.rho
-    let delta := info1.delta
-    let rx : Vec K n := Vector.ofFn fun i => w0.rx_nr[i] - rho * (w0.x[i] - w0.zeta[i])
-    let ry : Vec K p := Vector.ofFn fun i => w0.ry_nr[i] - delta * (w0.lambda[i] - w0.y[i])
-    let rz : Vec K m := Vector.ofFn fun i => w0.rz_nr[i] - delta * (w0.nu[i] - w0.z[i])
-    let rzl := d.lb.headUpd w0.r.z_lb fun i => w0.rz_lb_nr[i] - delta * (w0.nu_lb[i] - w0.z_lb[i])
-    let rzu := d.ub.headUpd w0.r.z_ub fun i => w0.rz_ub_nr[i] - delta * (w0.nu_ub[i] - w0.z_ub[i])
-    let w1 : Work K n p m := { w0 with r := { w0.r with x := rx, y := ry, z := rz, z_lb := rzl, z_ub := rzu } }
-    let five : Int := 5
-    let pTol : K := st.epsAbs + st.epsRel * info1.primalRelInf
-    let dTol : K := st.epsAbs + st.epsRel * info1.dualRelInf
-    if decide ((min five st.regFinetuneDualThr) < (info1.noDualUpdate : Int)) &&
-       decide (e.cs.c1e12 < primalProxInf e w1) && decide (primalInfR e w1 < pTol) then
-      (w1, { info1 with status := .primalInfeasible }, some .primalInfeasible)
-    else if decide ((min five st.regFinetunePrimalThr) < (info1.noPrimalUpdate : Int)) &&
-       decide (e.cs.c1e12 < dualProxInf e w1) && decide (dualInfR e w1 < dTol) then
-      (w1, { info1 with status := .dualInfeasible }, some .dualInfeasible)
-    else
-      (w1, info1, none)
+    let w1 := regResiduals e hi.1 hi.2
+    if primalInfeasRule e w1 hi.2 then (w1, { hi.2 with status := .primalInfeasible }, some .primalInfeasible)
+    else if dualInfeasRule e w1 hi.2 then (w1, { hi.2 with status := .dualInfeasible }, some .dualInfeasible)
+    else (w1, hi.2, none)
 
 /-- phase B (numeric part): boundary shift, finetune switch, `update_scalings`, `regularize_and_factorize` -/
 def phaseB (e : Env K n p m) (refineOn : Bool) (w : Work K n p m) (info0 : Info K) (kkt : KKT K n p m) :
